@@ -30,7 +30,7 @@ func checkC03(c *Ctx) {
 	premiseBounds(c, "C03.R6", "Area decides what is a hole with a pre-filter on the rings' boxes")
 	c.Floor("C03.R6", 16)
 	c.Floor("C03.R5", 2)
-	c.Floor("C03.R4", 2)
+	c.Floor("C03.R4", 1)
 	c.Floor("C03.R1", 8)
 	c.Floor("C03.R2", 9)
 	c.Floor("C03.R3", 3)
